@@ -25,6 +25,12 @@ def osfsLine (line : String) : String :=
   | ["delete", name] => seqS (fsDelete name)
   | ["openw", name] => seqS (fsOpenWriter name)
   | ["metainit", tmp, final] => seqS (metaInit tmp final)
+  | "hsyncs" :: name :: outcomes =>
+    -- successive Syncs on one fresh handle; per call the kernel's answers "<fileOk><dirOk>"
+    let step := fun (acc : Handle × List String) (o : String) =>
+      let (h', calls, ack) := fileSync .afterDirSync acc.1 ⟨o.take 1 == "1", (o.drop 1).take 1 == "1"⟩
+      (h', acc.2 ++ [seqS calls ++ (if ack then " -> ok" else " -> err")])
+    " | ".intercalate (outcomes.foldl step ({ name := name }, [])).2
   | _ => "bad-op"
 
 end Driver
